@@ -620,7 +620,7 @@ theorem MG.foldl_update_of_lt : ∀ (l : List (Bytes × Nat)) (m : MG), m.inner.
     rw [MG.update_of_lt (by omega), ih _ (by simp only [List.length_append, List.length_singleton]; omega)]
     simp
 
-/-- no compaction happens while merging fewer than 1024 entries: the merged summary is the concatenation -/
+/-- no compaction happens while merging fewer than `MG.cap` entries: the merged summary is the concatenation -/
 theorem mergedMG_of_lt (srcs : List Dict) (h : (srcs.map (·.mg.done.length)).sum < MG.cap) :
     (mergedMG srcs).inner = (srcs.map (·.mg.done)).flatten := by
   have key : ∀ (srcs : List Dict) (m : MG), m.inner.length + (srcs.map (·.mg.done.length)).sum < MG.cap →
@@ -758,7 +758,7 @@ theorem mergedMG_complete (srcs : List Dict) (h : (srcs.map (·.mg.done.length))
   obtain ⟨s', _, rfl⟩ := List.mem_map.1 hl
   exact MG.done_count_ne_zero e' hel
 
-/-- the statistics after a run of fewer than 1024 `encode`s: one entry per non-empty string, in order -/
+/-- the statistics after a run of fewer than `MG.cap` `encode`s: one entry per non-empty string, in order -/
 theorem Dict.observe_foldl_mg : ∀ (bs : List Bytes) (d : Dict), d.mg.inner.length + bs.length < MG.cap →
     (bs.foldl Dict.observe d).mg.inner = d.mg.inner ++ (bs.filter (· ≠ [])).map (·, 1) := by
   intro bs
